@@ -244,10 +244,20 @@ class AbstractStrategy(
     def get_reverse_op_symbol() -> str:
         return "?"
 
+    def _settings(self) -> dict:
+        """
+        The attributes of the strategy. An instance created from a subscripted
+        generic alias, e.g. `EmptyStrategy[A, B]()`, also holds `__orig_class__`
+        which is not a setting.
+        """
+        return {k: v for k, v in self.__dict__.items() if k != "__orig_class__"}
+
     def __eq__(self, other: object) -> bool:
         if not isinstance(other, AbstractStrategy):
             return NotImplemented
-        return self.__class__ == other.__class__ and self.__dict__ == other.__dict__
+        return (
+            self.__class__ == other.__class__ and self._settings() == other._settings()
+        )
 
     def __repr__(self):
         return (
